@@ -30,17 +30,28 @@ def _instrument():
     P.SafeEvaluator.evaluate = evaluate
     P._vf_hooked = True
 
+def _fname(gz): return {False:'res.log', True:'res.log.gz', 'mid':'res.gz.bak'}[gz]      # 'mid': a gzip log whose name does not END in .gz
+
 def full_log(prog, gz):
     d = tempfile.mkdtemp(prefix='c02_')
-    f = os.path.join(d, 'res.log.gz' if gz else 'res.log')
+    f = os.path.join(d, _fname(gz))
     res = exp.run_real(prog, result_file=f, processes=1, maxchunksperchild=0, maxtasksperchunk=0)
     L = open(f,'rb').read()
     shutil.rmtree(d, ignore_errors=True)
     return L, exp.comparable(res)
 
+def gz_members(L):
+    """end offsets of the gzip members of L (DiskSink writes one member per record)"""
+    import zlib
+    ends, pos = [], 0
+    while pos < len(L):
+        d = zlib.decompressobj(31); d.decompress(L[pos:]); pos = len(L) - len(d.unused_data); ends.append(pos)
+    return ends
+
 def offsets(L, gz, tier):
-    if gz or tier == 'thorough': 
-        return list(range(len(L)+1)) if (tier == 'thorough' or len(L) < 400) else sorted(set(list(range(0,len(L)+1,7))+[len(L)-1,len(L)]))
+    if gz or tier == 'thorough':
+        if tier == 'thorough' or len(L) < 400: return list(range(len(L)+1))
+        return sorted(set(list(range(0,len(L)+1,7))+[len(L)-1,len(L)]+gz_members(L)))          # every member boundary (a run killed between records) + every 7th byte
     bounds = [i+1 for i,b in enumerate(L) if b == 10]
     offs = {0, len(L)}
     for b in bounds: offs.update({b-1, b, b+1})
@@ -74,16 +85,16 @@ def n_complete_I(prefix, gz):
 def _classify(v):
     w = v['what']
     gz = v.get('info',{}).get('gz')
-    if gz and ('EOFError' in w or 'BadGzipFile' in w or 'Error -3' in w or 'zlib' in w): return "gz result file cut inside a compressed record: unreadable"
+    if gz and not v.get('info',{}).get('at_member_end') and ('EOFError' in w or 'BadGzipFile' in w or 'Error -3' in w or 'zlib' in w): return "gz result file cut inside a compressed record: unreadable"
     k = v.get('info',{}).get('k', 99)
     if not isinstance(k, int): k = 99
     if (not gz and k < 13) or (k == 0): return "result file cut before the end of its version line (or left empty): cannot be resumed"
     return w.split(':')[0][:110]
 
 def params(tier):
-    return [dict(prog=p, gz=g, mode=m) for p in PROGS for g in (False,True) for m in ('inproc','emu0','emu1')]
+    return [dict(prog=p, gz=g, mode=m) for p in PROGS for g in (False,True) for m in ('inproc','emu0','emu1')] + [dict(prog=PROGS[0], gz='mid', mode='inproc'), dict(prog=PROGS[2], gz='mid', mode='emu1')]
 
-@obligation('C02','resume', bounds={'quick':"4 program shapes x {plain,.gz} x re-run mode {in-process, emulated workers mt=0, mt=1}; crash offset k (z3 int) over every record boundary, +-1 byte, and every byte of the last interaction record (plain) / every 7th compressed byte (.gz)",
+@obligation('C02','resume', bounds={'quick':"4 program shapes x {plain,.gz} (+ a gzip log named res.gz.bak for two shapes) x re-run mode {in-process, emulated workers mt=0, mt=1}; crash offset k (z3 int) over every record boundary, +-1 byte, and every byte of the last interaction record (plain) / every gzip member boundary and every 7th compressed byte (.gz)",
                                     'thorough':"every byte of every log"},
             functions=FUNCS, params=params, classify=_classify, budget={'quick':100,'thorough':3000})
 def resume(sym, prog, gz, mode):
@@ -93,10 +104,10 @@ def resume(sym, prog, gz, mode):
     offs = offsets(L, gz, tier)
     ki = sym.int('k_index', 0, len(offs)-1)
     k = offs[unwrap(ki)]
-    sym.note(k=k, total=len(L), gz=gz, prog=prog)
+    sym.note(k=k, total=len(L), gz=gz, prog=prog, at_member_end=bool(gz) and k in gz_members(L))
     d = tempfile.mkdtemp(prefix='c02_')
     try:
-        f = os.path.join(d, 'res.log.gz' if gz else 'res.log')
+        f = os.path.join(d, _fname(gz))
         if k > 0 or sym.flag('empty_file'): open(f,'wb').write(L[:k])
         done_before = n_complete_I(L[:k], gz)
         total = n_complete_I(L, gz)
@@ -157,7 +168,7 @@ def kill_between_records(sym, prog, gz):
     sym.note(k=f"after record {n}", gz=gz, prog=prog)
     d = tempfile.mkdtemp(prefix='c02k_')
     try:
-        f = os.path.join(d, 'res.log.gz' if gz else 'res.log')
+        f = os.path.join(d, _fname(gz))
         _killed_run(prog, f, n)
         sym.check(os.path.exists(f), "the killed run left no file")
         P = open(f,'rb').read()
